@@ -408,6 +408,8 @@ func (c *c14) resolve(st spec.HStep) ([]string, string) {
 func (c *c14) applyFix(names []string, data string) {
 	desc := fmt.Sprintf("Fix(names=%d,%q)", len(names), data)
 	c.resolved = append(c.resolved, desc)
+	setCall("holiday " + desc)
+	defer setCall("")
 	if p := safe(func() { HolidayUtil.Fix(names, data) }); p != nil {
 		c.fail("FIX_PANIC", "fix_panicked", map[string]string{"call": desc, "panic": fmt.Sprint(p)})
 	}
@@ -462,6 +464,8 @@ func (c *c14) orderKey() string {
 }
 
 func (c *c14) checkAll(full bool) {
+	setCall(fmt.Sprintf("holiday queries and workday walks after step %d", c.step))
+	defer setCall("")
 	m := c.m
 	days := m.days()
 	lo, hi := c.years()
